@@ -60,8 +60,16 @@ impl Program {
             }
             if choice < 22 {
                 // template with used / unused parameters
-                let shape = rng.below(6);
+                let shape = if !inst_templates.is_empty() && rng.chance(1, 3) { 6 } else { rng.below(6) };
+                let mut tneeds = vec![];
                 let body = match shape {
+                    6 => {
+                        // an earlier (alias) template used in a dependent context
+                        let t = *rng.pick(&inst_templates);
+                        tneeds.push(t);
+                        let two = units[t].text.contains("typename U") && units[t].kind == "class" && !units[t].text.contains(" : public ");
+                        if two { format!("{}<T, int> dep; float w;", units[t].name) } else { format!("{}<T> dep; int k;", units[t].name) }
+                    }
                     0 => "T v; int k;".to_owned(),
                     1 => "T* p; int k;".to_owned(),
                     2 => "T arr[4];".to_owned(),
@@ -72,7 +80,7 @@ impl Program {
                 let params = if shape == 4 { "typename T, typename U" } else { "typename T" };
                 let opaque = rng.chance(1, 8);
                 let ann = if opaque { "/** <div rustbindgen opaque></div> */\n" } else { "" };
-                units.push(Unit { name: name.clone(), text: format!("{ann}template<{params}> struct {name} {{ {body} }};"), needs: vec![], is_template: true, opaque, kind: "class" });
+                units.push(Unit { name: name.clone(), text: format!("{ann}template<{params}> struct {name} {{ {body} }};"), needs: tneeds, is_template: true, opaque, kind: "class" });
                 continue;
             }
             if choice < 28 {
